@@ -94,12 +94,12 @@ def setup(chk):
                        "decisions, pickup time and max running handlers must agree. Every task is also read through Get1() (own goroutine started right after Send returned) and Err() (right after Get2 returned): both are replayed as reads of the model (must be enabled at their stamp) and compared on their component; monitors get1-unblock / get1-value / err-after-get2. Exact ties duration = T are compared against the set of outcomes the model allows for "
                        "both tie orders. Stream cancelled-dispatcher-context: the pool is built with WithContextBuilder(parent) and parent is cancelled at a scripted "
                        "virtual instant (before the first Send, during the first attempt, anywhere, never) or by a handler right before it returns; the cancellation is the "
-                       "model's input event AnParentCancel (a script cancellation at the same instant as another timed action is an accidental tie: monitors only). Streams multi-pool-option-lists: ONE process creates 2-3 pools one after the other (some later than the first Sends; at least one bigger than 1 and one of default size, any order) and sends bursts to all of them; every NewPool / Send gets a LITERAL option list (defaults mostly omitted, non-positive WithSize/WithRetry/WithTimeout values, repeated options, WithError(nil), WithContextBuilder(nil / builder tagged with an id)); the model computes each pool's and each task's configuration from its own list (apo_create / ato_create) and replays every pool's part of the log with it; the raw-log monitors use the configuration computed from the documented meaning of the options (ants_mp.eff_pool / eff_task), independent of the model; a third of these scripts drop the harness's only reference to one pool right after the last Send to it (tasks still queued or running) and force two GCs -- every accepted task must still complete with its handler's result; half of these scripts force runtime.GC() twice at 1-2 scripted instants while the pools are referenced and used afterwards; handler errors include (as a handler's OWN error before the deadline) the discard error obtained from another busy pool, context.DeadlineExceeded, context.Canceled and a wrapped discard error; one evaluation = one (script, pool). non-trivial = some task retried, failed, timed out or was discarded; distinct = distinct script")
+                       "model's input event AnParentCancel (a script cancellation at the same instant as another timed action is an accidental tie: monitors only). Streams multi-pool-option-lists: ONE process creates 2-3 pools one after the other (some later than the first Sends; at least one bigger than 1 and one of default size, any order) and sends bursts to all of them; every NewPool / Send gets a LITERAL option list (defaults mostly omitted, non-positive WithSize/WithRetry/WithTimeout values, repeated options, WithError(nil), WithContextBuilder(nil / builder tagged with an id)); the model computes each pool's and each task's configuration from its own list (apo_create / ato_create) and replays every pool's part of the log with it; the raw-log monitors use the configuration computed from the documented meaning of the options (ants_mp.eff_pool / eff_task), independent of the model; a third of these scripts drop the harness's only reference to one pool right after the last Send to it (tasks still queued or running) and force two GCs -- every accepted task must still complete with its handler's result; half of these scripts force runtime.GC() twice at 1-2 scripted instants while the pools are referenced and used afterwards; handler errors include (as a handler's OWN error before the deadline) the discard error obtained from another busy pool, context.DeadlineExceeded, context.Canceled and a wrapped discard error; Stream pool-dropped-while-inner-goroutines-busy: N handlers that ignore ctx overrun their deadline on all N inner goroutines, later tasks (R = 1 or 2) are handed over behind them, the harness drops the pool and collects in that window and again while the hogs run, right after they end and later: every accepted task still runs its handler and completes with its result; one evaluation = one (script, pool). non-trivial = some task retried, failed, timed out or was discarded; distinct = distinct script")
 
 
 def run(chk):
     setup(chk)
-    chk.run_proof_gate(ac.PROOFS + c07s.PROOFS + ["proofs/AntsGettersProofs.v", "models/AntsGetters.v"])
+    chk.run_proof_gate(ac.PROOFS + c07s.PROOFS + ["proofs/AntsGettersProofs.v", "models/AntsGetters.v", "proofs/AntsDropProofs.v", "models/AntsDrop.v"])
     binary = ac.build(chk)
     if binary:
         try:
